@@ -74,3 +74,16 @@ Definition acgtb (b : N) : bool := b <? 4.
 (* run a list of symbols through insert_canonical *)
 Definition feed (x : kmer) (l : list N) : kmer := fold_left insert_canonical l x.
 Definition lastn {A} (n : nat) (l : list A) : list A := skipn (length l - n) l.
+
+(* canonical value of a window computed from scratch *)
+Definition canon (k : N) (w : list N) : N :=
+  N.min (left_aligned k w) (left_aligned k (revcomp w)).
+(* all length-k windows of c, by start position, in order *)
+Fixpoint windows (k : nat) (c : list N) : list (list N) :=
+  match c with
+  | [] => []
+  | _ :: c' => (if (k <=? length c)%nat then [firstn k c] else []) ++ windows k c'
+  end.
+(* what enumerate_kmers is meant to return: the canonical values of the ACGT-only windows *)
+Definition kmers_spec (k : N) (c : list N) : list N :=
+  map (canon k) (filter (forallb acgtb) (windows (N.to_nat k) c)).
